@@ -341,6 +341,45 @@ func TestC05(t *testing.T) {
 		}
 		ev.Class("large-ancillary-data", int64(3*len(ats)))
 	}
+	// JPEGs whose ICC segments are anomalous (a profile embedded twice, a duplicated chunk, totals that disagree, a
+	// chunk number out of range) in front of the frame header: whatever becomes of the profile, the picture's
+	// dimensions are still what the frame header says (image/jpeg ignores APP2 altogether)
+	{
+		prof := build.SimpleProfile(build.TextDesc("anomalous"), 300)
+		a, b := prof[:200], prof[200:]
+		sof := func(w, h uint16) build.Seg {
+			return build.Seg{Marker: 0xC2, Data: build.SOF(8, h, w, [][3]byte{{1, 0x22, 0}, {2, 0x11, 1}, {3, 0x11, 1}})}
+		}
+		variants := []struct {
+			name string
+			icc  []build.Seg
+		}{
+			{"profile embedded twice", []build.Seg{build.ICCSeg(1, 2, a), build.ICCSeg(2, 2, b), build.ICCSeg(1, 2, a), build.ICCSeg(2, 2, b)}},
+			{"chunk 1 duplicated", []build.Seg{build.ICCSeg(1, 2, a), build.ICCSeg(1, 2, a), build.ICCSeg(2, 2, b)}},
+			{"totals disagree", []build.Seg{build.ICCSeg(1, 2, a), build.ICCSeg(2, 3, b), build.ICCSeg(3, 3, b)}},
+			{"chunk number 0, then a good one", []build.Seg{build.ICCSeg(0, 2, a), build.ICCSeg(1, 2, a), build.ICCSeg(2, 2, b)}},
+			{"chunk number above total", []build.Seg{build.ICCSeg(3, 2, a), build.ICCSeg(1, 2, a)}},
+			{"total 0", []build.Seg{build.ICCSeg(1, 0, a), build.ICCSeg(2, 0, b)}},
+			{"incomplete, then a second start", []build.Seg{build.ICCSeg(1, 3, a), build.ICCSeg(1, 2, a), build.ICCSeg(2, 2, b)}},
+		}
+		var na int64
+		for _, v := range variants {
+			name, icc := v.name, v.icc
+			for _, tail := range [][]build.Seg{nil, {{Marker: 0xFE, Data: []byte("after")}}, {build.ICCSeg(1, 1, prof)}} {
+				segs := append(append([]build.Seg{{Marker: 0xE0, Data: []byte("JFIF\x00\x01\x01\x00\x00\x01\x00\x01\x00\x00")}}, icc...), tail...)
+				segs = append(segs, sof(640, 481))
+				d, m := build.JPEG{Segs: segs, SOS: []byte{3, 1, 0, 2, 0x11, 3, 0x11, 0, 63, 0}, Entropy: []byte{1, 2, 3}}.Bytes()
+				f := gen.File{Format: "JPEG", Data: d, Map: m, W: 640, H: 481, Bits: 8, Desc: "JPEG with anomalous ICC segments before the frame header: " + name}
+				ev.Eval(1)
+				na++
+				ev.NT(ev.Hash("icc-anomaly", name, len(tail)))
+				if k, w := check(f); k != "" {
+					ev.Violation("dims", k, w, Case{File: f})
+				}
+			}
+		}
+		ev.Class("jpeg-icc-anomalies", na)
+	}
 	ev.RapidChecks(ev.Pick(3000, 150000))
 	ev.RapidSeed(5)
 	var early []gen.File
